@@ -26,6 +26,9 @@ FLOORS = {"quick": {"grants": 20000, "advance_checks": 20000, "evictions": 500, 
                        "cancels_waiting": 20000, "cancel_noop_granted": 400, "double_releases": 10000,
                        "nonuser_releases": 6000, "with_exits": 40000, "preempted_causes_checked": 10000,
                        "grants_with_others_waiting": 60000, "evictions_among_equal_keys": 600}}
+# floors for the situations added with the later rounds of seeded changes (evidence that they were really exercised)
+FLOORS["quick"].update({'releases_by_another_process': 1200, 'releases_through_another_resource': 1200})
+FLOORS["thorough"].update({'releases_by_another_process': 6000, 'releases_through_another_resource': 6000})
 GRID = [0, 0, 1, 1, 2, 3, 0.5, 3e-10, 5e-10]        # incl. distinct instants closer than any "rounding" grid
 
 
